@@ -232,6 +232,13 @@ func sysChild() {
 	out := bufio.NewWriter(os.Stdout)
 	for sc.Scan() {
 		line := sc.Text()
+		if strings.HasPrefix(line, "sysdist ") {
+			bts, _ := json.Marshal(runDist(root, line))
+			out.Write(bts)
+			out.WriteByte('\n')
+			out.Flush()
+			continue
+		}
 		if strings.HasPrefix(line, "sysbig ") {
 			bts, _ := json.Marshal(runBig(root, line))
 			out.Write(bts)
@@ -409,6 +416,127 @@ func runBig(root, line string) (resp sysResp) {
 	return
 }
 
+// sysdist docs=<minutesAgo:rid:svc,...> layout=<i,i;i;...> wins=<fromMinAgo-toMinAgo,...> : documents between 10 minutes
+// and 24 hours older than the fractions, so that SEALED fractions carry a MIDs distribution (one bit per minute) that
+// FilterInRange consults.  Layout A: one ACTIVE fraction (no distribution); layout B: the sealed fractions.  Narrow
+// windows (a few to ~90 minutes) in both orders; times are relative to the moment the child runs.
+func runDist(root, line string) (resp sysResp) {
+	defer func() {
+		if r := recover(); r != nil {
+			resp.Err = "panic: " + fmt.Sprint(r)
+		}
+	}()
+	m := kv(strings.Fields(line)[1:])
+	now := uint64(time.Now().UnixMilli())
+	var docs []sdoc
+	for _, e := range splitList(m["docs"], ",") {
+		p := strings.Split(e, ":")
+		docs = append(docs, sdoc{seq.ID{MID: seq.MID(now - atou(p[0])*60000 + atou(p[1])), RID: seq.RID(atou(p[1]))}, p[2]})
+	}
+	var layout [][]int
+	var sealed []bool
+	for _, fr := range strings.Split(m["layout"], ";") {
+		var idx []int
+		for _, e := range splitList(fr, ",") {
+			idx = append(idx, atoi(e))
+		}
+		layout = append(layout, idx)
+		sealed = append(sealed, true)
+	}
+	all := make([]int, len(docs))
+	for i := range all {
+		all[i] = i
+	}
+	stA, err := buildStore(root, docs, [][]int{all}, []bool{false})
+	if stA != nil {
+		defer stA.close()
+	}
+	if err != nil {
+		resp.Err = "build A: " + err.Error()
+		return
+	}
+	stB, err := buildStore(root, docs, layout, sealed)
+	if stB != nil {
+		defer stB.close()
+	}
+	if err != nil {
+		resp.Err = "build B: " + err.Error()
+		return
+	}
+	var a, bb []string
+	for _, w := range splitList(m["wins"], ",") {
+		ft := strings.Split(w, "-")
+		from, to := now-atou(ft[0])*60000, now-atou(ft[1])*60000
+		for _, desc := range []bool{true, false} {
+			r := sysReq{q: "*", desc: desc, wt: true, limit: 4, from: from, to: to}
+			p, err := r.params()
+			if err != nil {
+				resp.Err = err.Error()
+				return
+			}
+			ra, err1 := search1(stA.fracs, p, 0)
+			rb, err2 := search1(stB.fracs, p, 2)
+			if err1 != nil || err2 != nil {
+				resp.Err = fmt.Sprint("search: ", err1, err2)
+				return
+			}
+			// IDs relative to now, so that the text is stable
+			tag := fmt.Sprintf("[%s..%s min ago] desc=%v: ", ft[0], ft[1], desc)
+			a, bb = append(a, tag+relIDs(ra, now)), append(bb, tag+relIDs(rb, now))
+		}
+	}
+	resp.A = strings.Join(a, " ; ")
+	resp.B = []string{strings.Join(bb, " ; ")}
+	return
+}
+
+// relIDs rewrites "mid:rid" of a canonical QPR text as "<ms before now>:rid" and drops the histogram
+func relIDs(q string, now uint64) string {
+	p := strings.Split(q, "/")
+	var ids []string
+	for _, e := range splitList(p[0], ",") {
+		mr := strings.Split(e, ":")
+		ids = append(ids, fmt.Sprintf("-%d:%s", now-atou(mr[0]), mr[1]))
+	}
+	return vh.JoinStrs(ids, ",") + "/" + p[1]
+}
+
+func genDist(g gen, o vh.Opts) []string {
+	var lines []string
+	for c := 0; c < o.Pick(12, 120); c++ {
+		n := g.r.Range(2, 10)
+		var docs, wins []string
+		var ages []int
+		for i := 0; i < n; i++ {
+			age := 15 + g.r.Intn([]int{120, 600, 1380}[g.r.Intn(3)])
+			ages = append(ages, age)
+			docs = append(docs, fmt.Sprintf("%d:%d:%s", age, i, []string{"a", "b"}[g.r.Intn(2)]))
+		}
+		k := g.r.Range(1, 3)
+		layout := make([][]int, k)
+		for i := range docs {
+			layout[g.r.Intn(k)] = append(layout[g.r.Intn(k)%k], i)
+		}
+		// rebuild the layout deterministically (each document in exactly one fraction)
+		layout = make([][]int, k)
+		for i := range docs {
+			j := g.r.Intn(k)
+			layout[j] = append(layout[j], i)
+		}
+		var lay []string
+		for _, idx := range layout {
+			lay = append(lay, vh.JoinInts(idx))
+		}
+		for w := 0; w < 6; w++ { // windows that contain a document at a chosen distance from their newer end
+			age := ages[g.r.Intn(len(ages))]
+			before, after := g.r.Intn(40), 1+g.r.Intn(40)
+			wins = append(wins, fmt.Sprintf("%d-%d", age+before, max(0, age-after)))
+		}
+		lines = append(lines, fmt.Sprintf("sysdist docs=%s layout=%s wins=%s", strings.Join(docs, ","), strings.Join(lay, ";"), strings.Join(wins, ",")))
+	}
+	return lines
+}
+
 // ---------------------------------------------------------------- parent side
 
 func genSys(g gen, o vh.Opts) []string {
@@ -490,6 +618,29 @@ func runSys(lines []string, ch *vh.Channel, orc *vh.Oracle, rep *vh.Report, o vh
 		}
 		line := lines[i]
 		i++
+		if strings.HasPrefix(line, "sysdist ") {
+			var br sysResp
+			if err := json.Unmarshal(sc.Bytes(), &br); err != nil {
+				orc.Error = "child output: " + err.Error()
+				break
+			}
+			orc.Case(line, true, "sealed-with-distribution")
+			if br.Err != "" {
+				orc.Error = "sysdist child: " + br.Err
+			} else if len(br.B) != 1 || br.B[0] != br.A {
+				as, bs := strings.Split(br.A, " ; "), strings.Split(strings.Join(br.B, ""), " ; ")
+				what := "answers differ"
+				for i := range as {
+					if i < len(bs) && as[i] != bs[i] {
+						what = fmt.Sprintf("one active fraction: %s ; sealed fractions with distribution: %s", as[i], bs[i])
+						break
+					}
+				}
+				rep.Violate(vh.Violation{Site: "fracmanager/searcher.go:prepareFracs", Class: "sealed-fraction-with-distribution-differs-from-active",
+					What: what, Replay: []string{line}})
+			}
+			continue
+		}
 		if strings.HasPrefix(line, "sysbig ") {
 			var br sysResp
 			if err := json.Unmarshal(sc.Bytes(), &br); err != nil {
